@@ -219,6 +219,24 @@ impl Transaction {
         }
     }
 
+    /// The new Proposition this transaction has already staged for a tuple.
+    ///
+    /// `ENSURE PROPOSITION` resolves through the store, and the store cannot
+    /// see a tuple an earlier clause of the same statement is about to create.
+    /// Without this, two `ENSURE`s of one new tuple stage two rows with one
+    /// `tuple_key`, and the second write fails on the unique index after the
+    /// first rows of the commit are already durable.
+    pub fn staged_proposition(&self, tuple_key: &str) -> Option<ElementId> {
+        self.staged
+            .iter()
+            .find_map(|(id, staged)| match &staged.row {
+                Element::Proposition(row) if staged.is_new && row.tuple_key == tuple_key => {
+                    Some(*id)
+                }
+                _ => None,
+            })
+    }
+
     /// Checks an `EXPECT STATE` guard against an Assertion's lifecycle status.
     ///
     /// Distinct from [`Self::expect_state`], which reads the *engine* state:
